@@ -21,6 +21,10 @@ pub enum Op {
     Sub,
     /// try to open the existing storage while also supplying a key pair (must be refused)
     OpenKp,
+    /// open the existing storage through the create-or-open path (no open(true)), supplying
+    /// no key pair (0), the stored one (1) or an unrelated one (2): the stored key and
+    /// writability must win
+    ReopenKp(u8),
     /// apply a proof (honest or altered) received from a peer; meta is the logged description
     Proof {
         proof: Box<hypercore::Proof>,
@@ -41,6 +45,7 @@ pub fn op_json(op: &Op) -> Value {
         Op::Mro => json!({"o":"mro"}),
         Op::Sub => json!({"o":"sub"}),
         Op::OpenKp => json!({"o":"openkp"}),
+        Op::ReopenKp(k) => json!({"o":"reopen","via":"create-path","kp":k}),
         Op::Proof { meta, .. } => meta.clone(),
     }
 }
@@ -63,6 +68,11 @@ pub fn exec(core: &mut Core, op: &Op) -> Value {
             json!({"t":"ok"})
         }
         Op::OpenKp => core.open_with_key_pair(),
+        Op::ReopenKp(k) => match core.reopen_create_path(*k) {
+            OpenResult::Ok => json!({"t":"ok"}),
+            OpenResult::Empty => json!({"t":"err","kind":"EmptyStorage"}),
+            OpenResult::Err(e) => e,
+        },
         Op::Proof { proof, .. } => core.apply_proof(proof),
     }
 }
@@ -550,7 +560,9 @@ pub fn gen_op(rng: &mut StdRng, g: &GenCfg, len: u64, writable: bool) -> Op {
     }
     acc += g.p_clear;
     if x < acc && len > 0 {
-        let s = rng.gen_range(0..len);
+        // cores spanning several bitfield pages: often start exactly at / next to a page edge
+        let edges: Vec<u64> = [8191u64, 8192, 8193, 32767, 32768, 32769, 65535, 65536, 65537].iter().copied().filter(|e| *e < len).collect();
+        let s = if !edges.is_empty() && rng.gen_bool(0.35) { edges[rng.gen_range(0..edges.len())] } else { rng.gen_range(0..len) };
         let e = match rng.gen_range(0..10) {
             0 => len + rng.gen_range(1..40_000),
             1 => len,
@@ -580,7 +592,11 @@ pub fn gen_op(rng: &mut StdRng, g: &GenCfg, len: u64, writable: bool) -> Op {
     }
     acc += g.p_mro;
     if x < acc {
-        return if rng.gen_bool(0.25) { Op::OpenKp } else { Op::Mro };
+        return match rng.gen_range(0..8) {
+            0 | 1 => Op::OpenKp,
+            2 => Op::ReopenKp(rng.gen_range(0..3)),
+            _ => Op::Mro,
+        };
     }
     acc += g.p_sub;
     if x < acc {
